@@ -36,7 +36,7 @@ class C06World(TableWorld):
     def __init__(self, backend: str, variant: str, rep: Report, cfg: Dict[str, Any]):
         self.variant = variant
         n = {"commit_old": 2, "rollback_old": 2, "append_fresh": 2, "commit_old+committer": 3,
-             "commit_old+fresh": 3, "two_old": 3, "append_fresh_2gc": 2}[variant]
+             "commit_old+fresh": 3, "two_old": 3, "append_fresh_2gc": 2, "append_fresh_2collectors": 3}[variant]
         self.max_pauses = cfg.get("max_pauses", 0)
         super().__init__(backend, "separate", n, build_template, name="c06")
         self.rep, self.cfg = rep, cfg
@@ -67,7 +67,10 @@ class C06World(TableWorld):
 
     def actors(self):
         g = self.handle(0)
-        if self.variant == "append_fresh_2gc":
+        if self.variant == "append_fresh_2collectors":
+            g2 = self.handle(2)
+            out = [("G", lambda: g.garbage_collect(GRACE_MS)), ("H", lambda: g2.garbage_collect(GRACE_MS))]
+        elif self.variant == "append_fresh_2gc":
             # two collection runs during one transaction (the second one hours later, see the pause deviation)
             out = [("G", lambda: (g.garbage_collect(GRACE_MS), g.garbage_collect(GRACE_MS)))]
         else:
@@ -79,7 +82,7 @@ class C06World(TableWorld):
             out.append(("T", self.txs[0].rollback))
         if v == "two_old":
             out.append(("U", self.txs[1].commit))
-        if v in ("append_fresh", "append_fresh_2gc"):
+        if v in ("append_fresh", "append_fresh_2gc", "append_fresh_2collectors"):
             h = self.handle(1)
             out.append(("T", lambda: h.append_records([row(60)])))
         if v in ("commit_old+committer", "commit_old+fresh"):
@@ -120,7 +123,7 @@ class C06World(TableWorld):
         else:
             cur = set(st.current_rows())
             want = {"T": [50], "U": [51], "C": [70]}
-            if self.variant in ("append_fresh", "append_fresh_2gc"):
+            if self.variant in ("append_fresh", "append_fresh_2gc", "append_fresh_2collectors"):
                 want["T"] = [60]
             if self.variant == "rollback_old":
                 want.pop("T")
@@ -191,7 +194,11 @@ def configs(tier: str, seed: int) -> List[Dict[str, Any]]:
             add(b, "append_fresh")
         # the committing process stalls for 2 h (> grace) at any point; the collector runs during the stall
         add(b, "commit_old", bound=0 if tier == "quick" else 2, max_pauses=1)
-        add(b, "append_fresh_2gc", bound=1 if tier == "quick" else 2, max_pauses=1)
+        if tier != "quick":
+            add(b, "append_fresh_2gc", bound=2, max_pauses=1)
+        # two collection runs (separate collector processes) around a stalled writer; a conflicting committer + stall
+        add(b, "append_fresh_2collectors", bound=1, max_pauses=1)
+        add(b, "commit_old+committer", bound=1, max_pauses=1)
         if tier == "quick":
             add(b, "commit_old+committer", bound=1)
         else:
